@@ -22,6 +22,9 @@ Template directives (a line whose first non-blank characters are `//@`):
                                 the expression of a match arm the arm gets braces)
       //@after <k> <token-seq ending a statement>  following lines go after the `;` that ends the
                                 statement containing the k-th occurrence of the token sequence
+      //@atexit          following lines (a proof block; `$r` stands for the returned value) are executed at EVERY exit:
+                         the tail expression E becomes `{ let __r = E; <lines> __r }`, each `return X` becomes
+                         `{ let __r = X; <lines> return __r; }` -- no positional anchors, robust to restructuring
       //@no <Rn>         do not apply rewrite Rn in this function
       //@assume          keep the real signature + the spliced contract, replace the body by
                          unimplemented!() under #[verifier::external_body] (contract-only callee, listed as trusted)
@@ -349,7 +352,8 @@ def rw_R13(rf, a, b):
             inner = [j for j in sg if sg[k + 1] < j < close]
             txt = "".join(toks[j].text for j in inner)
             if re.fullmatch(r"([A-Z][A-Za-z0-9]*::)*[A-Z][A-Za-z0-9]*", txt):
-                out.append((Edit(inner[0], inner[-1] + 1, "|__x| %s(__x)" % txt, ("gen", "R13")), "R13 %s:%d .%s(%s) -> eta-expanded closure" % (rf.rel, toks[i].line, toks[i].text, txt)))
+                ty = txt.rsplit("::", 1)[0] if "::" in txt else txt
+                out.append((Edit(inner[0], inner[-1] + 1, "|__x| -> (__r: %s) ensures __r == %s(__x) { %s(__x) }" % (ty, txt, txt), ("gen", "R13")), "R13 %s:%d .%s(%s) -> eta-expanded closure (with its defining ensures)" % (rf.rel, toks[i].line, toks[i].text, txt)))
     return out
 
 
@@ -567,11 +571,13 @@ class FnSpec:
         self.loops = {}       # k -> lines
         self.loopentry = {}
         self.closures = {}    # k -> (header, tplline)
+        self.closures_by_text = []
         self.before = []      # (k, token, lines)
         self.after = []
         self.no = set()
         self.assume = False
         self.wraptail = None
+        self.atexit = []
         self.tpl_line = 0
 
 
@@ -769,19 +775,28 @@ class Unit:
                 elif c == "loopentry":
                     cur = fs.loopentry.setdefault(int(d[1]), [])
                 elif c == "closure":
-                    fs.closures[int(d[1])] = (d[2], lno)
+                    rest = s[3:].split(None, 1)[1]
+                    m = re.match(r"~(.+?)~(?:\s+after\s+~(.+?)~)?\s+(\|.*)$", rest)
+                    if m:
+                        # content-addressed: the closure whose own text contains the first pattern (and whose
+                        # preceding context contains the `after` pattern) -- robust to closures being added or removed
+                        fs.closures_by_text.append((m.group(1), m.group(2), m.group(3), lno))
+                    else:
+                        fs.closures[int(d[1])] = (d[2], lno)
                     cur = None
                 elif c in ("before", "before?"):
                     cur = []
                     fs.before.append((int(d[1]), d[2] + (" ?optional" if c.endswith("?") else ""), cur))
-                elif c == "after":
+                elif c in ("after", "after?"):
                     cur = []
-                    fs.after.append((int(d[1]), d[2], cur))
+                    fs.after.append((int(d[1]), d[2] + (" ?optional" if c.endswith("?") else ""), cur))
                 elif c == "no":
                     fs.no.add(d[1])
                 elif c == "assume":
                     fs.assume = True
                     cur = None
+                elif c == "atexit":
+                    cur = fs.atexit
                 elif c == "wraptail":
                     fs.wraptail = d[1]
                     cur = None
@@ -916,10 +931,31 @@ class Unit:
                 raise Undecided("loop structure of %s changed" % qual)
         # closures
         cls = find_closures(toks, bo + 1, be)
+        sgb = _sig(toks, bo + 1, be)
+        for own, ctx, hdr, lno in fs.closures_by_text:
+            nown, nctx = L.norm(own).replace(" ", ""), (L.norm(ctx).replace(" ", "") if ctx else None)
+            hits = []
+            for ci, c in enumerate(cls):
+                otext = L.text(toks, c[0], c[3]).replace(" ", "").replace("\n", "").replace("\t", "")
+                if nown not in otext:
+                    continue
+                if nctx is not None:
+                    before = [j for j in sgb if j < c[0]][-16:]
+                    btext = "".join(toks[j].text for j in before)
+                    if nctx not in btext:
+                        continue
+                hits.append(ci + 1)
+            if len(hits) == 1:
+                fs.closures[hits[0]] = (hdr, lno)
+            elif len(hits) > 1:
+                raise Undecided("closure selector ~%s~ is ambiguous in %s (%d matches)" % (own, qual, len(hits)))
+            # no match: the closure is gone; the obligations that needed its contract will fail or not on their own
         for k, (hdr, lno) in fs.closures.items():
             if k < 1 or k > len(cls):
                 raise Undecided("lost anchor: closure %d of %s (function has %d closures)" % (k, qual, len(cls)))
             b1, b2, bs, bend, is_block = cls[k - 1]
+            # a contract for the closure supersedes cosmetic rewrites of its header (R14)
+            edits = [e for e in edits if not (e.a < b2 + 1 and b1 < max(e.b, e.a + 1))]
             edits.append(Edit(b1, b2 + 1, hdr + " ", ("tpl", relname, lno)))
             if not is_block:
                 edits.append(Edit(bs, bs, "{ ", ("gen", "closure-brace")))
@@ -1008,8 +1044,13 @@ class Unit:
                 # must come before any wrapper a rewrite opens at the same token
                 edits.append(Edit(ins, ins, "\n" + tpl_text(lines), ("tpl", relname, lines[0][1] - 1), order=-1))
         for k, tok, lines in fs.after:
+            optional = tok.endswith(" ?optional")
+            if optional:
+                tok = tok[:-len(" ?optional")]
             words = [t.text for t in L.tokenize(tok) if t.kind != "ws"]
             occ = [x for x in range(len(sgb)) if _seq_at(toks, sgb, x, words)]
+            if optional and (k < 1 or k > len(occ)):
+                continue
             if k < 1 or k > len(occ):
                 raise Undecided("lost anchor: occurrence %d of `%s` in %s (%d found)" % (k, tok, qual, len(occ)))
             x = occ[k - 1]
@@ -1054,6 +1095,97 @@ class Unit:
             edits.append(Edit(ts, ts, fs.wraptail + "(", ("gen", "R16")))
             edits.append(Edit(te, te, ")", ("gen", "R16")))
             self.rewrites.append("R16 %s:%d tail expression of %s wrapped in %s(..)" % (rf.rel, toks[ts].line, qual, fs.wraptail))
+        if fs.atexit and not fs.assume:
+            body_txt = "".join(l + "\n" for l, _ in fs.atexit)
+            org = ("tpl", relname, fs.atexit[0][1] - 1)
+            sgt = _sig(toks, bo + 1, be)
+            # closures inside the body: their `return`s are not exits of the function
+            cl_ranges = [(c[2], c[3]) for c in find_closures(toks, bo + 1, be)]
+            def in_closure(i):
+                return any(a0 <= i < b0 for a0, b0 in cl_ranges)
+            # 1. every `return X`
+            for x, i in enumerate(sgt):
+                if toks[i].kind == "ident" and toks[i].text == "return" and not in_closure(i):
+                    depth = 0
+                    e = None
+                    for j in sgt[x + 1:]:
+                        tx = toks[j].text
+                        if toks[j].kind == "punct":
+                            if tx in "([{":
+                                depth += 1
+                            elif tx in ")]}":
+                                if depth == 0:
+                                    e = j
+                                    break
+                                depth -= 1
+                            elif tx in ";," and depth == 0:
+                                e = j
+                                break
+                    if e is None:
+                        raise Undecided("return expression end not found in %s" % qual)
+                    ee = e
+                    while toks[ee - 1].kind in ("ws", "comment"):
+                        ee -= 1
+                    if ee <= sgt[x] + 1 or all(toks[t].kind in ("ws", "comment") for t in range(i + 1, ee)):
+                        # `return;`
+                        edits.append(Edit(i, i, "{ " + body_txt.replace("$r", "()"), org, order=-2))
+                        edits.append(Edit(ee, ee, "; }", ("gen", "atexit")))
+                    else:
+                        edits.append(Edit(i, i + 1, "{ let __r = ", org, order=-2))
+                        edits.append(Edit(ee, ee, ";\n" + body_txt.replace("$r", "__r") + "return __r; }", org))
+            # 2. the tail expression
+            depth = 0
+            last = None
+            for x, i in enumerate(sgt):
+                tx = toks[i].text
+                if toks[i].kind == "punct":
+                    if tx in "([{":
+                        depth += 1
+                    elif tx in ")]}":
+                        depth -= 1
+                        if depth == 0 and tx == "}":
+                            # a block ending a statement (if/match/loop/while without `;`) -- unless it is the tail itself
+                            last = x
+                    elif tx == ";" and depth == 0:
+                        last = x
+            has_tail = not (last is not None and last + 1 >= len(sgt))
+            # a trailing block expression (match/if as tail) ends with `}` as the last token: treat it as the tail
+            if not has_tail and toks[sgt[-1]].text == "}" and arrow is not None:
+                # find the start of that trailing block statement: after the previous `;` / `}` at depth 0
+                depth = 0
+                prev = None
+                for x, i in enumerate(sgt[:-1]):
+                    tx = toks[i].text
+                    if toks[i].kind == "punct":
+                        if tx in "([{":
+                            depth += 1
+                        elif tx in ")]}":
+                            depth -= 1
+                            if depth == 0 and tx == "}" :
+                                # only counts if what follows starts a new statement; approximated by: next token is not `else`
+                                if x + 1 < len(sgt) and toks[sgt[x + 1]].text != "else":
+                                    prev = x
+                        elif tx == ";" and depth == 0:
+                            prev = x
+                # prev may be the closing brace of the trailing block itself: recompute excluding the last token
+                cands = [p for p in ([prev] if prev is not None else []) if p < len(sgt) - 1]
+                ts = sgt[cands[-1] + 1] if cands else sgt[0]
+                has_tail = True
+                tail_start = ts
+            elif has_tail:
+                tail_start = sgt[last + 1] if last is not None else sgt[0]
+            if has_tail and toks[tail_start].text == "loop":
+                has_tail = False      # a bare `loop` as tail never falls through: its exits are `return`s
+                arrow_unit = False
+            if has_tail:
+                te = be
+                while toks[te - 1].kind in ("ws", "comment"):
+                    te -= 1
+                edits.append(Edit(tail_start, tail_start, "{ let __r = ", org, order=-2))
+                edits.append(Edit(te, te, ";\n" + body_txt.replace("$r", "__r") + "__r }", org))
+            elif arrow is None:
+                # unit function falling off the end
+                edits.append(Edit(be, be, "\n" + body_txt.replace("$r", "()"), org))
         if fs.assume:
             # contract-only callee: the REAL signature, the body replaced; listed as trusted
             edits = [e for e in edits if e.b <= bo]
@@ -1065,6 +1197,9 @@ class Unit:
             self.out.nl()
             return
         self.out.nl()
+        # termination of exec code is not among the properties: a loop without a `decreases` clause (e.g. one added by
+        # a later change) must not make the unit undecidable; loops that do carry a decreases clause are still checked
+        self.out.emit("#[verifier::exec_allows_no_decreases_clause]\n", ("gen", "attr"))
         first = len(self.out.lines)
         render(self.out, rf, start, it["end"], edits)
         self.out.nl()
